@@ -166,6 +166,11 @@ impl TaskLogWriter {
                     Err(_) => return Err(()),
                 }
             }
+            // tokio's File returns from write() once the buffer is queued: wait until the bytes are
+            // in the file before they are announced (and learn about a failed write now).
+            if self.file.flush().await.is_err() {
+                return Err(());
+            }
             self.bytes_stored = self.bytes_stored.saturating_add(take as u64);
         }
         if (take as u64) < chunk.len() as u64 {
